@@ -340,7 +340,7 @@ def _loop_collection(f: FuncInfo, slice_node: ast.AST) -> str | None:
 @prop(
     "C29",
     technique="getstate/setstate agreement: per class defining the pair, the keys deleted / nulled / encoded in __getstate__ are compared with the keys re-established / decoded in __setstate__ (or by the documented owner), super() chains are checked",
-    decides="for the classes defining __getstate__/__setstate__ (Job, Submitter, Result, Node.Inputs, Worker, ConcurrentFuturesWorker, SlurmWorker, SgeWorker): every key deleted or set to None when pickling is re-established when unpickling (Submitter.__setstate__ restores worker.loop, the documented owner of Worker.loop); every key encoded with cloudpickle.dumps is decoded with loads for the same key set; the remaining keys are restored in bulk (__dict__.update / setattr loop); subclasses call super() in both directions; Job keeps _checksum, ConcurrentFuturesWorker.run ships the job as cloudpickle bytes and the worker process runs job.run(rerun=rerun).",
+    decides="for the classes defining __getstate__/__setstate__ (Job, Submitter, Result, Node.Inputs, Worker, ConcurrentFuturesWorker, SlurmWorker, SgeWorker): every key deleted or set to None when pickling is re-established when unpickling (Submitter.__setstate__ restores worker.loop, the documented owner of Worker.loop); every key encoded with cloudpickle.dumps is decoded with loads for the same key set; the remaining keys are restored in bulk (__dict__.update / setattr loop); subclasses call super() in both directions; Job keeps _checksum, ConcurrentFuturesWorker.run ships the job as cloudpickle bytes and the worker process runs job.run(rerun=rerun). Additionally: every literal key used on the state mapping in a __getstate__/__setstate__ names an attribute of the class; the thread-backed helper held by Audit (resource_monitor) is released under the guard it was acquired under, so the job stays picklable when save() runs.",
     not_decided="that arbitrary user tasks pickle; equality of outputs after the round trip.",
     level_note="Trusted: pickle calls __getstate__/__setstate__ as documented; attrs.asdict(recurse=False) returns every field.",
 )
@@ -497,7 +497,7 @@ def check_c29(A: Analysis, col: Collector):
 @prop(
     "C30",
     technique="memo-soundness rule: every memo on the workflow-construction path must be keyed by, or invalidated on, all inputs its value depends on; copy-before-mutation rule on the superset-hit path",
-    decides="(a) WorkflowTask.construct does not return an unkeyed memo while the task's fields stay assignable (on_setattr=convert): the memo is absent, keyed by the task's hash, or invalidated on assignment; (b) Workflow._constructed_cache is keyed by (hash of the task type, set of non-lazy input names, hash of the non-lazy values) computed from the task passed in, the exact-hit test checks both the key set and the value hash, and on the superset-hit path the cached workflow is deep-copied before any setattr on it.",
+    decides="(a) WorkflowTask.construct does not return an unkeyed memo while the task's fields stay assignable (on_setattr=convert): the memo is absent, keyed by the task's hash, or invalidated on assignment; (b) Workflow._constructed_cache is keyed by (hash of the task type, set of non-lazy input names, hash of the non-lazy values) computed from the task passed in, the exact-hit test checks both the key set and the value hash, and on the superset-hit path the cached workflow is deep-copied before any setattr on it. Additionally: workflow constructors defined inside functions (the implicit Split workflow) read nothing from the enclosing scope (closed-over values are not part of the cache key); the per-task memo rule is a dataflow rule (a returned value deriving from an attribute stored on the instance).",
     not_decided="idempotence of _create_graph's state updates on the shared exact-hit object (no failing history was found; not armed); equality of graphs.",
     level_note="Trusted: hash_function is a function of the value (C07/C08).",
 )
@@ -641,7 +641,7 @@ def check_c30(A: Analysis, col: Collector):
 @prop(
     "C32",
     technique="key agreement between the writer (unstructure) and the readers (structure + the three define functions): emitted dictionary keys must be parameters of every define",
-    decides="the keys unstructure emits ('type', the executor name, 'name', 'inputs', 'outputs', TASK_CLASS_ATTRS) are consumed by structure ('type' popped to select the module, the executor popped as the positional argument) and the remaining keys are parameters of python.define, shell.define and workflow.define; per-field dictionaries are produced by attrs.asdict of the field objects with the name moved to the key; class attributes are read from '_' + name.",
+    decides="the keys unstructure emits ('type', the executor name, 'name', 'inputs', 'outputs', TASK_CLASS_ATTRS) are consumed by structure ('type' popped to select the module, the executor popped as the positional argument) and the remaining keys are parameters of python.define, shell.define and workflow.define; per-field dictionaries are produced by attrs.asdict of the field objects with the name moved to the key; class attributes are read from '_' + name. Additionally: fields are serialised in declaration order (no sorted/set over them); a field given as a dictionary is rebuilt from it alone (no key taken from the function signature may override a serialised one).",
     not_decided="value fidelity (types, defaults, callables surviving serialisation).",
     level_note="Trusted: attrs.asdict emits attribute names that the field classes' attrs __init__ accepts.",
 )
@@ -864,7 +864,7 @@ def _copy_nested_core(A: Analysis, col: Collector, rule: str):
 @prop(
     "C33",
     technique="def-use rule on the clash-avoidance set: created once outside the per-field loop, passed to every copy, forwarded to FileSet.copy",
-    decides="copyfile_workflow creates one clashes_to_avoid set before the loop over output fields, passes it to every copy_nested_files call together with the workflow directory and mode=hardlink_or_copy, writes each copied value back to its field, and save() applies it to workflow results before pickling; copy_nested_files forwards the set as avoid_clashes to FileSet.copy and rebuilds the nested value with apply_to_instances.",
+    decides="copyfile_workflow creates one clashes_to_avoid set before the loop over output fields, passes it to every copy_nested_files call together with the workflow directory and mode=hardlink_or_copy, writes each copied value back to its field, and save() applies it to workflow results before pickling; copy_nested_files forwards the set as avoid_clashes to FileSet.copy and rebuilds the nested value with apply_to_instances. Additionally: apply_to_instances rebuilds each container branch from the recursive application to every element; copy_fileset returns only the memoised / freshly staged copy.",
     not_decided="file content, shape preservation for exotic containers, behaviour of fileformats' FileSet.copy.",
     level_note="Trusted: FileSet.copy(avoid_clashes=set) renames on clash and records the destinations it used.",
 )
@@ -919,7 +919,7 @@ def check_c33(A: Analysis, col: Collector):
 @prop(
     "C34",
     technique="def-use rule on the staging call: mode/collation/destination arguments and the per-file-set memo",
-    decides="Job.inputs stages every field whose type contains FileSet with copy_nested_files(value, dest_dir=self.cache_dir, mode=fld.copy_mode, collation=fld.copy_collation, supported_modes=...), records the staged value for template resolution only when it differs, and memoises the result (self._inputs); copy_nested_files copies each distinct FileSet once and rebuilds the nested value with apply_to_instances.",
+    decides="Job.inputs stages every field whose type contains FileSet with copy_nested_files(value, dest_dir=self.cache_dir, mode=fld.copy_mode, collation=fld.copy_collation, supported_modes=...), records the staged value for template resolution only when it differs, and memoises the result (self._inputs); copy_nested_files copies each distinct FileSet once and rebuilds the nested value with apply_to_instances. Additionally: apply_to_instances rebuilds each container branch from the recursive application to every element; copy_fileset returns only the memoised copy or the result of FileSet.copy (never the file-set it was given); a memo handed in as a parameter counts as shared.",
     not_decided="independence of a copy from its original, link semantics, nested shape for exotic containers (fileformats behaviour).",
     level_note="Trusted: FileSet.copy honours mode and collation.",
 )
@@ -970,7 +970,7 @@ def check_c34(A: Analysis, col: Collector):
 @prop(
     "C37",
     technique="checked obligations of an invariant argument for DiGraph's sort: emission guard, removal guard, re-sort-on-mutation (dominance / must-call on CFGs)",
-    decides="(1) _sorting appends a node to the sorted part only under `not predecessors[nd.name]` and every other node to the remaining list (no node dropped or duplicated in a pass); (2) sorting removes an emitted node from the working predecessor map of exactly its successors, and only for nodes emitted in that pass or in _node_wip; sorting works on copies of the predecessor lists; (3) every mutator that can invalidate an order (add_nodes, add_edges, remove_nodes) re-sorts or resets _sorted_nodes when it was set, and sorted_nodes sorts lazily when unset; a pass that emits nothing raises (cycle).",
+    decides="(1) _sorting appends a node to the sorted part only under `not predecessors[nd.name]` and every other node to the remaining list (no node dropped or duplicated in a pass); (2) sorting removes an emitted node from the working predecessor map of exactly its successors, and only for nodes emitted in that pass or in _node_wip; sorting works on copies of the predecessor lists; (3) every mutator that can invalidate an order (add_nodes, add_edges, remove_nodes) re-sorts or resets _sorted_nodes when it was set, and sorted_nodes sorts lazily when unset; a pass that emits nothing raises (cycle). Additionally: remove_nodes drops a prefix of the sorted list only under a guard comparing exactly that prefix with the removed nodes.",
     not_decided="histories of mutations (the obligations are per-operation), removal bookkeeping of _node_wip across operations.",
     level_note="The invariant argument: (1)+(2) make each pass emit exactly the nodes whose remaining predecessors are all emitted, so the concatenation is a topological order; (3) keeps the cached order consistent with the edge set.",
 )
